@@ -7,6 +7,7 @@ import GwbVerif.Model.Parse.Json
 import GwbVerif.Model.Apps.Grid
 import GwbVerif.Model.Apps.Dat
 import GwbVerif.Model.Apps.GridMesh
+import GwbVerif.Model.Apps.GridSphere
 import GwbVerif.Model.Parse.Schema
 open Gwb Lean
 
@@ -160,7 +161,7 @@ partial def loop (decl : Json) (version : String) (stdin : IO.FS.Stream) (worlds
       | .error e => IO.println s!"err {e}"; loop decl version stdin worlds
     | _, _ => IO.println "err bad-args"; loop decl version stdin worlds
   | "grid" :: gtype :: dim :: nx :: ny :: nz :: bounds =>
-    -- grid <cartesian|chunk|annulus> <dim> <nx> <ny> <nz> <xmin xmax ymin ymax zmin zmax as hex>   (angles in degrees, as in the grid file)
+    -- grid <cartesian|chunk|annulus|sphere> <dim> <nx> <ny> <nz> <xmin xmax ymin ymax zmin zmax as hex>   (angles in degrees, as in the grid file)
     match dim.toNat?, nx.toNat?, ny.toNat?, nz.toNat?, bounds.mapM unhex with
     | some dim, some nx, some ny, some nz, some [xmin, xmax, ymin, ymax, zmin, zmax] =>
       let d2r (a : Float) : Float := degToRad a
@@ -172,6 +173,11 @@ partial def loop (decl : Json) (version : String) (stdin : IO.FS.Stream) (worlds
         else if gtype == "annulus" then
           let nt := (annulusQuotient zmin zmax nz).toUInt64.toNat
           some (annulusGrid2 zmin zmax nt nz)
+        else if gtype == "sphere" && dim == 3 then
+          -- n_cell_y is not used by the sphere branch; `Err.internal` cannot happen (theorem C18_sphere_total)
+          (match sphereGrid zmin zmax nx nz with
+           | .ok m => some m
+           | .error _ => none)
         else none
       match mesh with
       | some m =>
